@@ -503,8 +503,9 @@ def scale_from_matrix(matrix):
         direction = np.real(V[:, i]).squeeze()
         direction /= vector_norm(direction)
     except IndexError:
-        # uniform scaling
-        factor = (factor + 2.0) / 3.0
+        # uniform scaling: the mean of the diagonal, without
+        # going through `trace - 2.0` which cancels for small factors
+        factor = np.trace(M33) / 3.0
         direction = None
     # origin: any eigenvector corresponding to eigenvalue 1
     w, V = np.linalg.eig(M)
